@@ -383,9 +383,27 @@ func (x *exec) applyContract(fr *frame, s *State, con *Contract, sig *types.Sign
 	post.st = s
 	x.bindResults(post.vars, con, res, sig)
 	for _, e := range con.Ensures {
-		x.assume(s, x.evalBool(e.E, &post))
+		// postconditions over the callee's own locals are facts about its body, not about the call
+		if t, ok := x.evalBoolLocalsOpt(e.E, &post); ok {
+			x.assume(s, t)
+		}
 	}
 	return res
+}
+
+// evalBoolLocalsOpt evaluates a postcondition at a call site; ok is false when it mentions an
+// identifier that only exists inside the callee (a function-level local).
+func (x *exec) evalBoolLocalsOpt(e Expr, env *Env) (t string, ok bool) {
+	defer func() {
+		if r := recover(); r != nil {
+			if u, isU := r.(unsupported); isU && strings.Contains(u.msg, "unknown identifier") {
+				t, ok = "", false
+				return
+			}
+			panic(r)
+		}
+	}()
+	return x.evalBool(e, env), true
 }
 
 func (x *exec) bindResults(vars map[string]*Val, con *Contract, res *Val, sig *types.Signature) {
